@@ -247,6 +247,10 @@ def add_clause(b, kw, rest, path, ln):
         b.solvers = rest.split()
     elif kw == 'noharness':
         b.noharness = True
+    elif kw == 'assumed':
+        # the contract of a function WITHOUT a body (a member of an abstract class of the driver TU): never run as a
+        # block of its own, only used in place of calls; the text goes into the evidence as an unchecked assumption
+        b.assumed = rest.strip() or 'assumed contract'
     elif kw == 'arg':
         nm, _, val = rest.partition(' ')
         b.args[nm] = val.strip()
@@ -571,11 +575,27 @@ def gen_c(b, blocks, path):
             out.append(fi.sig + ';')
     linemap = {}      # line number -> (function, kind, tags, text)
     for fi in order:
-        if getattr(fi, 'abstract', False):
+        cb = byname.get(fi.cname)
+        if getattr(fi, 'abstract', False) and '__transform_' in fi.cname:
             tab = [t for t in getattr(b, 'abstable', []) if t[0] == fi.cname]
             out += abstract_decl(u, fi, tab[0] if tab else None)
             continue
-        cb = byname.get(fi.cname)
+        if getattr(fi, 'abstract', False):
+            # a member of an abstract class of the driver TU (the linear solver): declared only, under its assumed contract
+            if cb is None or not getattr(cb, 'assumed', None):
+                raise Undecided('abstract function %s has no assumed contract block' % fi.cname)
+            out.append('/* abstract (driver TU): assumed contract -- %s */' % cb.assumed)
+            out.append(fi.sig)
+            cls_ = clause_lines(cb, enforce=False)
+            if not any(k == 'requires' for k, t_, x in cls_):
+                out.append('  __CPROVER_requires(1)')
+            if not any(k == 'ensures' for k, t_, x in cls_):
+                out.append('  __CPROVER_ensures(1)')
+            for kind, tags, text in cls_:
+                out.append('  ' + text)
+            out.append(';')
+            b.assumes = sorted(set(getattr(b, 'assumes', [])) | {'%s: %s' % (fi.cname, cb.assumed)})
+            continue
         out.append('/* %s:%s-%s */' % (fi.src[0], fi.src[1], fi.src[2]))
         out.append(fi.sig)
         if cb is not None and (fi.cname == b.fn or fi.cname in b.replace_eff):
@@ -679,10 +699,11 @@ def solver_env(solver):
 def cbmc_cmd(gb, solver, extra):
     flag = '--z3' if solver in ('z3', 'z3new') else '--' + solver
     base = list(CBMC_FLAGS)
-    if '--unwind' in extra:
-        # cbmc keeps the FIRST of two --unwind options: the default must go when a block sets its own
-        i = base.index('--unwind')
-        del base[i:i + 2]
+    for opt in ('--unwind', '--object-bits'):
+        if opt in extra:
+            # cbmc keeps the FIRST of two equal options: the default must go when a run sets its own
+            i = base.index(opt)
+            del base[i:i + 2]
     return ['cbmc', flag] + base + extra + [gb]
 
 
@@ -800,10 +821,10 @@ def prepare_loops(gb_in, gb_out, ctext, cfile, b):
         k = kdef
         if os.path.abspath(f) == os.path.abspath(cfile) and 0 < ln <= len(lines):
             # template-constant bound written out in the loop condition: unwind exactly that far
-            mm = re.search(r'(?:<|!=)\s*\(?([0-9UL+\-() ]+?)\)*;', lines[ln - 1])
+            mm = re.search(r'(<=|<|!=)\s*\(?([0-9UL+\-() ]+?)\)*;', lines[ln - 1])
             if mm:
                 try:
-                    k = int(eval(re.sub(r'[UL]', '', mm.group(1)))) + 1
+                    k = int(eval(re.sub(r'[UL]', '', mm.group(2)))) + (2 if mm.group(1) == '<=' else 1)
                 except Exception:
                     k = kdef
         ids.append('%s:%d' % (lid, max(1, k)))
@@ -894,6 +915,27 @@ def decide(gb, b, tmo, only=None, extra=None, single=None):
     return list(merged.values()), 'obligation by obligation (%d separate queries)' % len(groups)
 
 
+def small_unwind_args(gb, cfile, cap):
+    """unwinding for an instance with a small cap: data-dependent loops run at most cap + 1 times; loops with a literal
+    bound in their condition get that bound (unwinding assertions stay on: a wrong guess is an UNKNOWN, never a pass)"""
+    extra = ['--unwind', str(cap + 2)]
+    lines = open(cfile).read().split('\n')
+    rc, out, err, dt = sh(['goto-instrument', '--show-loops', gb], 120)
+    us = []
+    for m in re.finditer(r'Loop (\S+):\n\s+file (\S+) line (\d+) function', out or ''):
+        lid, f, ln = m.group(1), m.group(2), int(m.group(3))
+        if os.path.abspath(f) == os.path.abspath(cfile) and 0 < ln <= len(lines):
+            mm = re.search(r'(<=|<|!=)\s*\(?([0-9UL+\-() ]+?)\)*;', lines[ln - 1])
+            if mm:
+                try:
+                    us.append('%s:%d' % (lid, int(eval(re.sub(r'[UL]', '', mm.group(2)))) + (3 if mm.group(1) == '<=' else 2)))
+                except Exception:
+                    pass
+    if us:
+        extra += ['--unwindset', ','.join(us)]
+    return extra
+
+
 def refute_small(r, b, cfile, hname, cmd, ids, tmo, want_all=False):
     base = r.base
     defs = ['-D' + d for d in getattr(b, 'defines', [])]
@@ -909,23 +951,7 @@ def refute_small(r, b, cfile, hname, cmd, ids, tmo, want_all=False):
     cap = getattr(b, 'cap', 8)
     extra = ['--unwind', str(max(10, cap + 2))]
     if want_all and cap < 8:
-        # a bounded stand-in with a small cap: data-dependent loops run at most cap + 1 times; loops with a literal
-        # bound in their condition get that bound (unwinding assertions stay on, so a wrong guess is an UNKNOWN, not a pass)
-        extra = ['--unwind', str(cap + 2)]
-        lines = open(cfile).read().split('\n')
-        rc, out, err, dt = sh(['goto-instrument', '--show-loops', base + '.t.gb'], 120)
-        us = []
-        for m in re.finditer(r'Loop (\S+):\n\s+file (\S+) line (\d+) function', out or ''):
-            lid, f, ln = m.group(1), m.group(2), int(m.group(3))
-            if os.path.abspath(f) == os.path.abspath(cfile) and 0 < ln <= len(lines):
-                mm = re.search(r'(?:<|!=)\s*\(?([0-9UL+\-() ]+?)\)*;', lines[ln - 1])
-                if mm:
-                    try:
-                        us.append('%s:%d' % (lid, int(eval(re.sub(r'[UL]', '', mm.group(1)))) + 2))
-                    except Exception:
-                        pass
-        if us:
-            extra += ['--unwindset', ','.join(us)]
+        extra = small_unwind_args(base + '.t.gb', cfile, cap)
     results, how = decide(base + '.t.gb', b, min(tmo, 120) if not want_all else tmo, only=ids, extra=extra,
                           single=None)
     if want_all:
@@ -966,6 +992,14 @@ def classify(prop, linemap, hname):
         return set(m.group(1).split())
     if '.postcondition.' in pid and line in linemap and linemap[line][2]:
         return set(linemap[line][2])
+    mpc = re.match(r'(.+)\.postcondition\.(\d+)$', pid)
+    if mpc and line is None:
+        # no source line (cbmc aborted while decoding the model): the k-th postcondition is the k-th ensures clause
+        ens = [linemap[l] for l in sorted(linemap) if linemap[l][0] == mpc.group(1) and linemap[l][1] == 'ensures']
+        k = int(mpc.group(2))
+        if 1 <= k <= len(ens) and ens[k - 1][2]:
+            prop.setdefault('sourceLocation', {})['line'] = str([l for l in sorted(linemap) if linemap[l] is ens[k - 1]][0])
+            return set(ens[k - 1][2])
     if re.search(r'\.(array_bounds|pointer_dereference|overflow|division-by-zero|pointer_arithmetic|pointer|conversion|undefined-shift)\.', pid) \
             or 'overflow' in pid or 'bounds' in pid:
         if '__CPROVER_contracts' in pid:
@@ -1165,7 +1199,9 @@ def _run_block(r, blocks, keep=False, verbose=False):
             r.status, r.reason = 'undecided', 'canary build failed: ' + (err2 or '')[-300:]
         else:
             n_assert = sum(x.count('__CPROVER_assert(') for x in (b.body + b.post)) + 1
-            co = portfolio(base + '.d.gb', b.solvers or SOLVERS, ['--unwind', '10', '--property', '%s.assertion.%d' % (hname, n_assert)], tmo)
+            ccap = getattr(b, 'canarycap', getattr(b, 'cap', 8))
+            cun = small_unwind_args(base + '.d.gb', cfile, ccap) if ccap < 8 else ['--unwind', '10']
+            co = portfolio(base + '.d.gb', b.solvers or SOLVERS, cun + ['--object-bits', '16', '--property', '%s.assertion.%d' % (hname, n_assert)], tmo)
             if any(x['status'] == 'done' and not any('[canary]' in (p.get('description') or '') for p in x['results']) for x in co):
                 co = [{'solver': '-', 'status': 'error', 'msg': 'canary property not found'}]
             cd = [x for x in co if x['status'] == 'done']
@@ -1247,7 +1283,7 @@ def clause_of(r, o):
 def check_property(pid, tier, blocks, verbose=True):
     t0 = time.time()
     sel = [b for b in blocks if (pid in b.tags or (pid == 'C09' and b.kind == 'function'))
-           and (tier == 'thorough' or b.tier == 'quick')]
+           and (tier == 'thorough' or b.tier == 'quick') and not getattr(b, 'assumed', None)]
     if not sel:
         print('UNDECIDED: no contract block states %s' % pid)
         return 2
@@ -1277,9 +1313,12 @@ def check_property(pid, tier, blocks, verbose=True):
                                     'status': 'discharged', 'solver': o['solver']})
             else:
                 text = '%s|%s|%s' % (r.block.name, o['id'], clause_of(r, o))
-                k = [x for x in known if x[0] == pid and x[1].search(text)]
+                # a listed finding is one failing obligation; the same obligation may belong to several properties
+                # (every block is also a C09 block), and it is the same finding under each of them
+                k = [x for x in known if x[1].search(text)]
+                k.sort(key=lambda x: x[0] != pid)
                 if k:
-                    knowns.append((r, o, k[0][2]))
+                    knowns.append((r, o, k[0][2] + ('' if k[0][0] == pid else ' (listed under %s)' % k[0][0])))
                     n_obl -= 1      # counted separately (obligations_failing_as_known_findings), never as discharged
                 else:
                     violations.append((r, o))
@@ -1405,7 +1444,7 @@ def main(argv):
         return rc
     if cmd == 'run':
         rx = re.compile(argv[1])
-        sel = [b for b in blocks if rx.search(b.name)]
+        sel = [b for b in blocks if rx.search(b.name) and not getattr(b, 'assumed', None)]
         res = run_blocks(sel, blocks, verbose=True, keep='--keep' in argv)
         for r in res:
             if r.status != 'proved' and '-v' in argv:
